@@ -8,8 +8,7 @@ Open Scope string_scope.
 
 (* binder level: on the fragment (bool, every integer width, float64, string, interface{}, pointers, slices, arrays,
    structs with unquoted fields of pairwise distinct ASCII names; json.Number excluded), for every document whose
-   strings all three unquoters read alike, whose objects have pairwise distinct keys (after lower-casing) and whose
-   arrays hold no null, every initial value without hidden slice elements, every option set and every hash function:
+   strings all three unquoters read alike and whose objects have pairwise distinct keys (after lower-casing), every initial value without hidden slice elements, every option set and every hash function:
    the alternative binder (with or without the fast map) returns exactly what the default one returns *)
 Theorem C11_binder_equiv_partial : forall (h : bytes -> N) (o : opts) t, frag11 t = true ->
   forall im j v, is_opt im = true -> guards11 o j -> nh v = true ->
@@ -60,11 +59,14 @@ Theorem C11_float_inf_refuted :
 Proof. exact float_inf_refuted. Qed.
 Print Assumptions C11_float_inf_refuted.
 
-Theorem C11_slice_null_element_refuted :
+(* repaired (ea591a6): a null element of []string and a null value of map[string]string *)
+Theorem C11_slice_and_map_null_agree :
   sonic_unmarshal h1 Jit opts_std (TSlice TStr) (b "[null]") VNil = Ok (VList [VStr []] []) /\
-  sonic_unmarshal h1 Opt opts_std (TSlice TStr) (b "[null]") VNil = Err.
-Proof. exact slice_null_element_refuted. Qed.
-Print Assumptions C11_slice_null_element_refuted.
+  sonic_unmarshal h1 Opt opts_std (TSlice TStr) (b "[null]") VNil = Ok (VList [VStr []] []) /\
+  sonic_unmarshal h1 Jit opts_std (TMap KStr TStr) (b "{""k"":null}") VNil = Ok (VMap [(VStr (b "k"), VStr [])]) /\
+  sonic_unmarshal h1 Opt opts_std (TMap KStr TStr) (b "{""k"":null}") VNil = Ok (VMap [(VStr (b "k"), VStr [])]).
+Proof. exact slice_and_map_null_agree. Qed.
+Print Assumptions C11_slice_and_map_null_agree.
 
 Theorem C11_slice_grow_refuted :
   let t := TSlice (TStruct (fld "A" (TInt I64) (fld "B" (TInt I64) FNil))) in
@@ -74,12 +76,6 @@ Theorem C11_slice_grow_refuted :
   sonic_unmarshal h1 Opt opts_std t s v = Ok (VList [VList [VInt 1; VInt 0] []; VList [VInt 2; VInt 0] []] []).
 Proof. exact slice_grow_refuted. Qed.
 Print Assumptions C11_slice_grow_refuted.
-
-Theorem C11_map_string_null_refuted :
-  sonic_unmarshal h1 Jit opts_std (TMap KStr TStr) (b "{""k"":null}") VNil = Ok (VMap [(VStr (b "k"), VStr [])]) /\
-  sonic_unmarshal h1 Opt opts_std (TMap KStr TStr) (b "{""k"":null}") VNil = Err.
-Proof. exact map_string_null_refuted. Qed.
-Print Assumptions C11_map_string_null_refuted.
 
 (* repaired divergences (afd5482, 39e707a) now agree *)
 Theorem C11_u32_key_and_f32_edge_agree :
